@@ -78,6 +78,8 @@ impl Vm {
         rule: &'a str,
         state: Box<ParserState<'a, &'a str>>,
     ) -> ParseResult<Box<ParserState<'a, &'a str>>> {
+        #[cfg(pest_parser_pest_verif)]
+        let _verif_guard = pest::verif::vm_rule_guard(rule, state.position().pos());
         if let Some(ref listener) = self.listener {
             if listener(rule.to_owned(), state.position()) {
                 return Err(ParserState::new(state.position().line_of()));
